@@ -461,10 +461,12 @@ def rem (a b : V) : Except Err V :=
 def pow (a b : V) : Except Err V :=
   match coerce a b with
   | some (.i x y) =>
-    if y < 0 ∨ 4294967295 < y then bad
+    -- `u32::try_from(b)` + `checked_pow`; since `fix:` 3a8d5c6 the bases 0, 1 and -1 also take exponents
+    -- beyond `u32` (`if b % 2 == 0 { a * a } else { a }`); a negative exponent is an error for every base
+    if y < 0 then bad
     else if x = 0 ∨ x = 1 ∨ x = -1 then
       .ok (.int (if y = 0 then 1 else if x = 0 then 0 else if x = 1 then 1 else if y % 2 = 0 then 1 else -1))
-    else if 127 < y then bad
+    else if 4294967295 < y ∨ 127 < y then bad
     else chk (x ^ y.toNat)
   | some (.f x y) => match fPow x y with
     | some r => .ok (.float r)
